@@ -99,18 +99,19 @@ type entry struct {
 
 // world is one app under test plus what the harness observes at its boundaries.
 type world struct {
-	cfg     *hcfg
-	app     *fiber.App
-	d       *drive.Direct
-	store   *vstore.Store // csrf storage, or the session storage for session backends; nil for memory
-	ref     *refStore     // bKeyRef only
-	fs      *faultStore   // journal + fault plan in front of store (not for bKeyRef / memory)
-	nReq    int
-	fctx    *fasthttp.RequestCtx // reused across requests when cfg.reuseCtx (keep-alive connection)
-	nTok    int
-	nSid    int
-	genReq  []string // tokens generated during the current request
-	entries []entry  // protected-handler entries during the current request
+	cfg        *hcfg
+	app        *fiber.App
+	d          *drive.Direct
+	store      *vstore.Store // csrf storage, or the session storage for session backends; nil for memory
+	ref        *refStore     // bKeyRef only
+	opsAtEntry int           // journal length when the protected handler was entered (-1: not entered)
+	fs         *faultStore   // journal + fault plan in front of store (not for bKeyRef / memory)
+	nReq       int
+	fctx       *fasthttp.RequestCtx // reused across requests when cfg.reuseCtx (keep-alive connection)
+	nTok       int
+	nSid       int
+	genReq     []string // tokens generated during the current request
+	entries    []entry  // protected-handler entries during the current request
 }
 
 const b36 = "0123456789abcdefghijklmnopqrstuvwxyz"
@@ -247,6 +248,9 @@ func newWorld(cfg *hcfg, plan *faultPlan) *world {
 		return c.SendString("ok")
 	}
 	hd := func(c fiber.Ctx) error {
+		if w.fs != nil {
+			w.opsAtEntry = len(w.fs.ops)
+		}
 		en := entry{route: "del", method: c.Method(), ctxTok: fcsrf.TokenFromContext(c)}
 		if hh := fcsrf.HandlerFromContext(c); hh != nil {
 			if err := hh.DeleteToken(c); err != nil {
@@ -473,6 +477,7 @@ func (w *world) do(q *wire) *drive.Resp {
 	w.genReq = w.genReq[:0]
 	w.entries = w.entries[:0]
 	w.nReq++
+	w.opsAtEntry = -1
 	if w.fs != nil {
 		w.fs.req = w.nReq
 	}
@@ -1034,11 +1039,6 @@ func (rn *runner) step(s *step) {
 	if w.fs != nil {
 		opsFrom = len(w.fs.ops)
 	}
-	// what the token store really holds right before the request (own instrumented store only)
-	reallyStored := true
-	if cfg.backend == bVstore && q.ext != "" {
-		_, reallyStored = w.store.Peek(q.ext)
-	}
 	resp := w.do(q)
 	e.Eval(1)
 	if w.ref != nil {
@@ -1049,13 +1049,30 @@ func (rn *runner) step(s *step) {
 	ents := append([]entry(nil), w.entries...)
 
 	// storage faults that hit this request
+	// Two phases: the middleware (everything before the protected handler is entered: lookup,
+	// consumption, issue / extension) and the handler (only DeleteToken talks to the store there).
+	// With the session middleware in front the session is saved after the handler returned, so the
+	// whole request counts as the middleware phase.
 	var lookupFault, setFault, delFault, anyFault, sawGet bool
-	lastSetErr := map[string]bool{} // key -> did the last Set of that key in this request fail
-	lastAnySetErr, sawSet := false, false
-	for _, op := range rn.opsSince(opsFrom) {
+	lastAnySetErr, sawSet := false, false    // middleware phase: the Set that carries the issued token
+	var hDelFault, hAnyFault, mAnyFault bool // handler phase (DeleteToken) / middleware phase
+	reqOps := rn.opsSince(opsFrom)
+	split := len(reqOps)
+	if w.opsAtEntry >= opsFrom && cfg.backend != bSessMW {
+		split = w.opsAtEntry - opsFrom
+	}
+	for i, op := range reqOps {
 		if op.Err {
 			anyFault = true
 		}
+		if i >= split {
+			hAnyFault = hAnyFault || op.Err
+			if op.Kind == "delete" {
+				hDelFault = hDelFault || op.Err
+			}
+			continue
+		}
+		mAnyFault = mAnyFault || op.Err
 		switch op.Kind {
 		case "get":
 			if !sawGet && op.Err {
@@ -1064,7 +1081,6 @@ func (rn *runner) step(s *step) {
 			sawGet = true
 		case "set":
 			sawSet = true
-			lastSetErr[op.Key] = op.Err
 			lastAnySetErr = op.Err
 			setFault = setFault || op.Err
 		case "delete":
@@ -1074,16 +1090,15 @@ func (rn *runner) step(s *step) {
 	if anyFault {
 		m.fault = true
 	}
-	// notStored: the response hands out token t although the Set that should have persisted it failed
-	notStored := func(t string) bool {
+	// notStored: the response hands out a freshly issued token although the store did not take it.
+	// Decided from the outcomes of the storage calls made while handling this request only — the
+	// key layout is the middleware's business: stored = a Set was made and the last one succeeded
+	// (the last Set of the middleware phase is the one that carries the issued token, in both backends).
+	notStored := func() bool {
 		if w.fs == nil || !anyFault {
 			return false
 		}
-		if isSession(cfg.backend) {
-			return !sawSet || lastAnySetErr // the last save of the session is the one that carries the token
-		}
-		failed, ok := lastSetErr[t]
-		return !ok || failed
+		return !sawSet || lastAnySetErr
 	}
 
 	ckVal, ckSet, ckExpired, ckBad := respCookie(resp, cfg.cookieName, wall)
@@ -1119,7 +1134,7 @@ func (rn *runner) step(s *step) {
 	handOut := func(to *client, by string) {
 		if ckSet && !ckExpired {
 			fresh := contains(made, ckVal)
-			uns := fresh && notStored(ckVal)
+			uns := fresh && notStored()
 			m.deliver(to, ckVal, sidAfter, fresh, !uns, now, by)
 			if ti := m.tokens[ckVal]; ti != nil && fresh {
 				ti.unstored = uns
@@ -1143,7 +1158,7 @@ func (rn *runner) step(s *step) {
 		ckBefore, _ := m.status(q.ck, q.sid, now)
 		if q.route == "del" && reached {
 			// the application deleted the token itself: no valid cookie is expected afterwards
-			rn.applyDelete(q, delFault, anyFault)
+			rn.applyDelete(q, hDelFault, hAnyFault)
 			cl.tok = ""
 			if ckSet && !ckExpired {
 				e.Stat("delete_token_left_cookie", 1)
@@ -1165,10 +1180,9 @@ func (rn *runner) step(s *step) {
 			case !fresh && !(ckVal == q.ck && ckBefore != stDead):
 				why = "stale-or-foreign-token"
 			}
-			if why == "" && cfg.backend == bVstore {
-				if _, ok := w.store.Peek(ckVal); !ok {
-					why = "token-not-in-store"
-				}
+			if why == "" && fresh && w.fs != nil && (!sawSet || lastAnySetErr) {
+				// a token the store was never (successfully) asked to keep cannot be valid
+				why = "issued-token-never-stored"
 			}
 			if why != "" {
 				rn.viol("safe-method|no-valid-cookie|"+why, "a safe request did not leave a valid token cookie",
@@ -1209,10 +1223,8 @@ func (rn *runner) step(s *step) {
 		}
 	case m.fault && lookupFault:
 		deny = "fault|storage-get-error-passes"
-	case m.fault && ti != nil && ti.unstored && !(cfg.backend == bVstore && reallyStored):
+	case m.fault && ti != nil && ti.unstored:
 		deny = "fault|unstored-token-passes"
-	case m.fault && cfg.backend == bVstore && !reallyStored:
-		deny = "fault|token-not-in-store-passes"
 	}
 	if reached {
 		e.Stat("unsafe_reached", 1)
@@ -1309,7 +1321,7 @@ func (rn *runner) step(s *step) {
 	if ti != nil {
 		if cfg.singleUse {
 			if ti.state != stDead {
-				ti.consumeFault = delFault || (isSession(cfg.backend) && anyFault)
+				ti.consumeFault = delFault || (isSession(cfg.backend) && mAnyFault)
 			}
 			m.kill(q.ext, "consumed-single-use")
 		} else if extBefore == stLive || extBefore == stUncertain {
@@ -1318,7 +1330,7 @@ func (rn *runner) step(s *step) {
 	}
 	foreignSession := isSession(cfg.backend) && s.sidSel == selOther
 	if q.route == "del" {
-		rn.applyDelete(q, delFault, anyFault)
+		rn.applyDelete(q, hDelFault, hAnyFault)
 		if !foreignSession {
 			cl.tok = ""
 			handOut(cl, "unsafe")
